@@ -66,7 +66,11 @@
 //   - calls listed under "ignore" (mutex operations, logging, metrics) are
 //     dropped; methods listed under "identity" return their receiver;
 //   - "recv_nonnil" models a pointer receiver as the struct itself (the
-//     assumption that callers never pass nil is stated where it is used).
+//     assumption that callers never pass nil is stated where it is used);
+//     "nonnil" does the same for the listed pointer parameters;
+//   - "trace_repr" records trace arguments of structure / option / list type
+//     as `reprStr <value>` instead of "_", and an argument `x.f` of abstract
+//     type, x of a translated struct type, as "field:f".
 //
 // Anything else is a translation error: the generated definition is replaced
 // by a marker that makes the Tie theorem fail, i.e. a broken obligation.
@@ -114,6 +118,12 @@ type TrFunc struct {
 	// Pure lists printed callee expressions whose calls are opaque *values*
 	// that are not recorded in the trace (getters such as t.UnixNano).
 	Pure []string `json:"pure,omitempty"`
+	// NonNil lists pointer-to-struct parameters modelled as the struct itself,
+	// like recv_nonnil for the receiver (callers never pass nil).
+	NonNil []string `json:"nonnil,omitempty"`
+	// TraceRepr renders trace arguments of non-scalar translatable type
+	// (structures, options, lists) with `reprStr` instead of "_".
+	TraceRepr bool `json:"trace_repr,omitempty"`
 }
 
 type trSpecFile struct {
@@ -402,6 +412,7 @@ type fctx struct {
 	loop        *loopCtx
 	opaqueVals  map[string]string
 	opaqueCalls map[*ast.CallExpr]string
+	nonNil      map[types.Object]bool
 }
 
 type ex struct {
@@ -411,6 +422,9 @@ type ex struct {
 
 func (c *fctx) isRecvVal(e ast.Expr) bool {
 	id, ok := e.(*ast.Ident)
+	if ok && c.nonNil[c.p.info.Uses[id]] {
+		return true
+	}
 	return ok && c.recvVal && id.Name == c.recv
 }
 
@@ -1092,7 +1106,12 @@ func (c *fctx) traceArg(a ast.Expr) (code string) {
 		return code
 	}
 	lt := c.t.leanType(tv.Type)
-	if lt != "Int" && lt != "Bool" && lt != "String" {
+	if se, ok := a.(*ast.SelectorExpr); ok && lt == "" && c.spec.TraceRepr {
+		if sel := c.p.info.Selections[se]; sel != nil && sel.Kind() == types.FieldVal && c.t.leanType(c.typeOf(se.X)) != "" {
+			return fmt.Sprintf("%q", "field:"+se.Sel.Name) // abstract field of a translated structure: its name
+		}
+	}
+	if lt != "Int" && lt != "Bool" && lt != "String" && !(c.spec.TraceRepr && lt != "") {
 		return code
 	}
 	// Do not let a nested opaque call allocate parameters from here.
@@ -1104,6 +1123,9 @@ func (c *fctx) traceArg(a ast.Expr) (code string) {
 	}
 	if lt == "String" {
 		return e.code
+	}
+	if lt != "Int" && lt != "Bool" {
+		return "(reprStr " + e.code + ")"
 	}
 	return "(toString " + e.code + ")"
 }
@@ -1856,6 +1878,14 @@ func (t *translator) translate(sp TrFunc) (fo *funcOut) {
 	for i := 0; i < sig.Params().Len(); i++ {
 		v := sig.Params().At(i)
 		lt := t.leanType(v.Type())
+		for _, n := range sp.NonNil {
+			if pt, ok := v.Type().(*types.Pointer); ok && n == v.Name() && lt != "" {
+				if c.nonNil == nil {
+					c.nonNil = map[types.Object]bool{}
+				}
+				c.nonNil[v], lt = true, t.leanType(pt.Elem())
+			}
+		}
 		if lt == "" {
 			// unused or only passed to opaque calls: drop it
 			continue
